@@ -54,16 +54,25 @@ pub fn c15_check(case: &Case, op: Op, f32_run: bool, st: &mut SweepStats, rng: &
 }
 
 fn stage_worker(ctx: &mut Ctx, prop: &'static str, quick: u64, thorough: u64) {
-    let total = ctx.count(quick, thorough);
+    // under Miri (Tree Borrows) a handful of tiny sweeps: what is being watched there is the instrumentation itself -
+    // the status observer (hook H3) passes a borrowed closure through a thread-local raw pointer, and the monitors call
+    // back into the library (compare_segments) from inside it
+    let miri = ctx.variant == "miri";
+    let total = if miri { ctx.count(4, 32) } else { ctx.count(quick, thorough) };
     let mut st = SweepStats::default();
     for i in ctx.my_indices(total) {
         if ctx.out_of_time() {
             break;
         }
         let mut rng = ctx.rng("mixed", i);
-        let case = match gen_checked(ctx, &mut rng, false) {
-            Some(c) => c,
-            None => continue,
+        let case = if miri {
+            ctx.cnt("miri_tiny_cases", 1);
+            if i % 2 == 0 { gen_rect(&mut rng, 2) } else { gen_lattice(&mut rng, 1) }
+        } else {
+            match gen_checked(ctx, &mut rng, false) {
+                Some(c) => c,
+                None => continue,
+            }
         };
         if prop == "C14" && case.self_crossing {
             // the classification statement is about valid operands; self-crossing rings make "own operand
@@ -71,9 +80,12 @@ fn stage_worker(ctx: &mut Ctx, prop: &'static str, quick: u64, thorough: u64) {
         }
         ctx.begin("mixed", i, "");
         for op in OPS {
+            if miri && op != OPS[(i as usize / 2) % 4] {
+                continue;
+            }
             // f32 on every fourth representable case
             for f32_run in [false, true] {
-                if f32_run && !(case.f32_ok && i % 4 == 0) {
+                if f32_run && (miri || !(case.f32_ok && i % 4 == 0)) {
                     continue;
                 }
                 ctx.evaluations += 1;
